@@ -3,22 +3,25 @@ package main
 import "gopkg.in/typ.v4/maps"
 
 // C11: maps.Bimap, two values "a" and "b" (b becomes a clone of a or vice versa).
+// The trace speaks in ids: keys 1..nk, values 11..10+nv.  The Go keys and values behind them are chosen so that the
+// FIRST key and the FIRST value are the zero values of their types (key id k = Go key k-1, value id v = Go value (v-11)*7):
+// "no entry" answers of the API come with ok = false and are written as id 0.
 func init() { comps["bimap"] = driveBimap }
 
 func obsBimap(b *maps.Bimap[int, int], nk, nv int) M {
 	o := M{}
 	fw, fwok, cf := []int{}, []bool{}, []bool{}
 	for k := 1; k <= nk; k++ {
-		v, ok := b.GetForward(k)
-		fw, fwok, cf = append(fw, v), append(fwok, ok), append(cf, b.ContainsForward(k))
+		v, ok := b.GetForward(bmKey(k))
+		fw, fwok, cf = append(fw, bmValID(v, ok)), append(fwok, ok), append(cf, b.ContainsForward(bmKey(k)))
 	}
 	rv, rvok, cr := []int{}, []bool{}, []bool{}
 	for v := 11; v <= 10+nv; v++ {
-		k, ok := b.GetReverse(v)
-		rv, rvok, cr = append(rv, k), append(rvok, ok), append(cr, b.ContainsReverse(v))
+		k, ok := b.GetReverse(bmVal(v))
+		rv, rvok, cr = append(rv, bmKeyID(k, ok)), append(rvok, ok), append(cr, b.ContainsReverse(bmVal(v)))
 	}
 	rng := [][]int{}
-	b.Range(func(k, v int) bool { rng = append(rng, []int{k, v}); return true })
+	b.Range(func(k, v int) bool { rng = append(rng, []int{bmKeyID(k, true), bmValID(v, true)}); return true })
 	stop := 0
 	b.Range(func(k, v int) bool { stop++; return false })
 	o["fw"], o["fwok"], o["cf"], o["rv"], o["rvok"], o["cr"] = fw, fwok, cf, rv, rvok, cr
@@ -44,11 +47,11 @@ func driveBimap(plan []M, out *Out, _ []string) {
 				nk, nv = num(c, "nk"), num(c, "nv")
 				bm["a"], bm["b"] = new(maps.Bimap[int, int]), new(maps.Bimap[int, int]) // zero values
 			case "Add":
-				bm[n].Add(num(c, "k"), num(c, "v"))
+				bm[n].Add(bmKey(num(c, "k")), bmVal(num(c, "v")))
 			case "RemoveForward":
-				bm[n].RemoveForward(num(c, "k"))
+				bm[n].RemoveForward(bmKey(num(c, "k")))
 			case "RemoveReverse":
-				bm[n].RemoveReverse(num(c, "v"))
+				bm[n].RemoveReverse(bmVal(num(c, "v")))
 			case "Clear":
 				bm[n].Clear()
 			case "Clone":
@@ -67,4 +70,19 @@ func driveBimap(plan []M, out *Out, _ []string) {
 		}
 		out.Emit(e)
 	}
+}
+
+func bmKey(id int) int { return id - 1 }
+func bmVal(id int) int { return (id - 11) * 7 }
+func bmKeyID(k int, ok bool) int {
+	if !ok {
+		return 0
+	}
+	return k + 1
+}
+func bmValID(v int, ok bool) int {
+	if !ok {
+		return 0
+	}
+	return v/7 + 11
 }
